@@ -448,7 +448,13 @@ func programs(thorough bool) []Spec {
 	for _, f1 := range []string{"", "return1", "append1", "return2"} {
 		// the dependent pair is cheap (the tasks are serialised): one preemption more than the rest
 		ps = append(ps, Spec{Tasks: []TaskSpec{fail(t("a"), f1), t("b", "a")}, Bound: b + 1})
-		ps = append(ps, Spec{Tasks: []TaskSpec{fail(t("a"), f1), t("b")}, Bound: b, Split: thorough})
+		// (two CONCURRENT tasks: ~10^6 executions with one preemption - thorough explores that for the plain and
+		// the first-command-fails variant, the other two stay at free switches)
+		bb := b
+		if f1 == "append1" || f1 == "return2" {
+			bb = 0
+		}
+		ps = append(ps, Spec{Tasks: []TaskSpec{fail(t("a"), f1), t("b")}, Bound: bb, Split: thorough && bb > 0})
 	}
 	y := t("a")
 	y.Yield = 1
